@@ -64,27 +64,37 @@ func oracle(c Case) vkit.Outcome {
 }
 
 func opName(op *Op) string {
-	n := op.Kind
-	if op.Abstract {
-		n = "abstract-" + n
+	// the abstract form matters for reads (its own handler, no column
+	// validation); abstract writes share the builders of the plain ones
+	if op.Abstract && op.Kind == "read" {
+		return "abstract-read"
 	}
-	return n
+	return op.Kind
 }
 
-// sigKinds renders the parameter kinds of a signature; addressing one of the
+// kindOrder: when a request has several undocumented parameters, the
+// signature names the first of them in this order (requests normally attack
+// through one parameter; the rare free-for-all request must not multiply
+// signatures).
+var kindOrder = []string{"table:adv", "sort:adv", "columns:adv", "upsert:adv", "paging:adv", "filter:unparsed", "filter:edge-quote", "filter:lenient", "filter:hostile-value",
+	"body:malformed", "body:adv-key", "body:adv-value", "body:adv-shape", "task:adv", "symbols:unresolved", "symbols:adv"}
+
+// sigKinds renders the parameter kind of a signature; addressing one of the
 // other tables by its plain name is a documented request and is left out.
 func sigKinds(kinds []string) string {
-	var ks []string
-	for _, k := range kinds {
-		if k != "table:other" {
-			ks = append(ks, k)
+	for _, want := range kindOrder {
+		for _, k := range kinds {
+			if k == want {
+				return k
+			}
 		}
 	}
-	if len(ks) == 0 {
-		return "documented"
+	for _, k := range kinds {
+		if k != "table:other" {
+			return k
+		}
 	}
-	sort.Strings(ks)
-	return strings.Join(ks, "+")
+	return "documented"
 }
 
 func failure(op *Op, kinds []string, layer, what, observed, expected string) *vkit.Failure {
@@ -394,7 +404,7 @@ func runOp(fx *fix, d *dsnFix, op *Op, before dbState) (*opResult, dbState) {
 		cls = "rejected"
 	}
 	ks := sigKinds(kinds)
-	res.label("%s %s", opName(op), cls)
+	res.label("%s abstract=%v %s", op.Kind, op.Abstract, cls)
 	res.label("params %s %s", ks, cls)
 	return res, after
 }
@@ -600,6 +610,9 @@ func (p *opParse) documented() bool {
 		if k != "table:other" && k != "filter:hostile-value" && k != "filter:edge-quote" {
 			return false
 		}
+		if k == "filter:edge-quote" && p.pf != nil && !p.pf.strict {
+			return false
+		}
 	}
 	return true
 }
@@ -611,8 +624,8 @@ func filterKind(pf *parsedFilter, given bool, add func(string)) {
 	case !given:
 	case pf == nil:
 		add("filter:unparsed")
-	case !pf.strict && pf.edgeQuote:
-		add("filter:lenient-edge-quote")
+	case pf.edgeQuote:
+		add("filter:edge-quote")
 	case !pf.strict:
 		add("filter:lenient")
 	case pf.edgeQuote:
